@@ -118,6 +118,14 @@ def check(case, ctx):
             ctx.fail(f'parse_triples(format_triples(ts, indent={indent})) != ts', expected=ts, observed=back)
             return
         ctx.validated += 1
+        if 't' in case:
+            from penman.codec import PENMANCodec
+            codec = PENMANCodec()
+            back_c = codec.parse_triples(codec.format_triples(given, indent=indent))
+            ctx.transitions += 1
+            if [tuple(x) for x in back_c] != ts:
+                ctx.fail(f'PENMANCodec.parse_triples(PENMANCodec.format_triples(ts, indent={indent})) != ts', expected=ts, observed=back_c)
+                return
         ref = G.parse_triples(L.lex(s, triple=True))
         if ref[0] != 'ok' or ref[1] != ts:
             ctx.fail('reference recogniser disagrees on the formatted text (harness or notation problem)', expected=ts, observed=list(ref))
